@@ -88,7 +88,26 @@ def make_scenario_factory(ctx, debug, cfg, nodes, seedk):
             d = cfggen.write_config(cfg, cfg_dir(f'c12_{seedk}'))
             sc.add(*cfggen.bus_lines(cfg, nodes), 'bus brackets 0', f'start {d} 0', 'quiesce')
         sc.add('drain intern')
+        cmds = []
+        if not debug:
+            # the application is using the library meanwhile: commanded aspects / speeds put heap-allocated names and pending acknowledgements into
+            # the state that the hostile traffic then hits (manual-operation reports, acknowledgements, state reports for commanded equipment)
+            from ..scen import call, s as S_
+            m_ = statemodel.Model(cfg, nodes)
+            tos = [b['id'] for b in cfg['boards'] if m_.connected(b['id']) and cfggen.is_track_output(b)]
+            for b in cfg['boards']:
+                for kind_, fn_ in (('points_dcc', 'bidib_switch_point'), ('signals_dcc', 'bidib_set_signal'), ('points_board', 'bidib_switch_point'), ('signals_board', 'bidib_set_signal'),
+                                   ('peripherals', 'bidib_set_peripheral')):
+                    for a in (b.get(kind_) or []):
+                        cmds.append(call(fn_, S_(a['id']), S_(a['aspects'][len(cmds) % len(a['aspects'])][0])))
+            for t in cfg['trains']:
+                if tos:
+                    cmds.append(call('bidib_set_train_speed', S_(t['id']), 5, S_(tos[0])))
+        n_done = 0
         for i, (kind, stream) in items:
+            if cmds and n_done % 20 == 0:
+                sc.add(*cmds, 'flush', 'quiesce')
+            n_done += 1
             sc.add(f'mark c{i}', raw(list(stream)), 'quiesce', 'raw fe', up(probe_msg(i)), 'quiesce', 'drain intern')
         sc.add('mark cend', 'stop')
         return sc.text()
